@@ -8,6 +8,7 @@ import Tx3Proofs.C01Change
 import Tx3Proofs.C01Index
 import Tx3Proofs.C01Datum
 import Tx3Proofs.C01Field
+import Tx3Proofs.C01Optional
 #print axioms Tx3.Lang.eval_int
 #print axioms Tx3.Lang.lower_int
 #print axioms Tx3.Lang.C01_int_fragment
@@ -50,3 +51,5 @@ import Tx3Proofs.C01Field
 #print axioms Tx3.Lang.lower_input_field
 #print axioms Tx3.Lang.lower_record_with_spread
 #print axioms Tx3.Lang.C01_spread_field_value
+#print axioms Tx3.C01_optional_output_kept_iff
+#print axioms Tx3.C01_optional_output_error_kept
